@@ -39,21 +39,21 @@ MON_PROPS = {"C01": ["M_C01_PublishedStable"], "C02": [], "C03": ["M_C01_Publish
 
 # exhaustive families: (module, N, MaxLookups, extra constants, liveness?)
 MC_FAMS = {
-    ("C01", "quick"): [("MCEngB", 2, 0, {}, False), ("MCEngA", 3, 0, {}, False), ("MCEngW2", 2, 0, {}, False)],
-    ("C01", "thorough"): [("MCEngA", 3, 0, {}, False), ("MCEngS", 4, 0, {}, False), ("MCEngL2", 3, 0, {}, False), ("MCEngW2", 2, 0, {}, False),
+    ("C01", "quick"): [("MCEngI", 2, 0, {}, False), ("MCEngB", 2, 0, {}, False), ("MCEngA", 3, 0, {}, False), ("MCEngW2", 2, 0, {}, False)],
+    ("C01", "thorough"): [("MCEngI", 2, 0, {}, False), ("MCEngA", 3, 0, {}, False), ("MCEngS", 4, 0, {}, False), ("MCEngL2", 3, 0, {}, False), ("MCEngW2", 2, 0, {}, False),
                           ("MCEngB", 3, 0, {}, False)],
-    ("C02", "quick"): [("MCEngB", 2, 0, {}, True), ("MCEngS", 3, 0, {}, True), ("MCEngL1", 3, 0, {}, False)],
-    ("C02", "thorough"): [("MCEngS", 4, 0, {}, True), ("MCEngA", 3, 0, {}, False), ("MCEngL1", 3, 0, {}, False),
+    ("C02", "quick"): [("MCEngI", 2, 0, {}, False), ("MCEngB", 2, 0, {}, True), ("MCEngS", 3, 0, {}, True), ("MCEngL1", 3, 0, {}, False)],
+    ("C02", "thorough"): [("MCEngI", 2, 0, {}, False), ("MCEngS", 4, 0, {}, True), ("MCEngA", 3, 0, {}, False), ("MCEngL1", 3, 0, {}, False),
                           ("MCEngL2", 3, 0, {}, False), ("MCEngB", 3, 0, {}, False)],
-    ("C03", "quick"): [("MCEngW2", 2, 0, {}, False)],
-    ("C03", "thorough"): [("MCEngW2", 2, 0, {}, False)] +
+    ("C03", "quick"): [("MCEngI", 2, 0, {}, False), ("MCEngW2", 2, 0, {}, False)],
+    ("C03", "thorough"): [("MCEngI", 2, 0, {}, False), ("MCEngW2", 2, 0, {}, False)] +
                          [("MCEngW3", 3, 0, {"WModes": '{"%s"}' % w}, False) for w in el.WRAPS[1:]] +
                          [("MCEngW3b", 3, 0, {"WModes": ALL_W}, False)],
-    ("C04", "quick"): [("MCEngF2", 2, 2, {}, False)],
-    ("C04", "thorough"): [("MCEngF2", 2, 3, {}, False), ("MCEngF3", 3, 1, {}, False), ("MCEngFW2", 2, 1, {}, False),
+    ("C04", "quick"): [("MCEngI", 2, 0, {}, False), ("MCEngF2", 2, 2, {}, False)],
+    ("C04", "thorough"): [("MCEngI", 2, 0, {}, False), ("MCEngF2", 2, 3, {}, False), ("MCEngF3", 3, 1, {}, False), ("MCEngFW2", 2, 1, {}, False),
                           ("MCEngF3L", 3, 1, {}, False)],
-    ("C05", "quick"): [("MCEngL1", 3, 0, {}, False), ("MCEngL2", 3, 0, {}, False), ("MCEngP", 2, 0, {}, False), ("MCEngM", 2, 0, {}, False)],
-    ("C05", "thorough"): [("MCEngL1", 3, 0, {}, False), ("MCEngL2", 3, 0, {}, False), ("MCEngA", 3, 0, {}, False), ("MCEngP", 3, 0, {}, False), ("MCEngM", 2, 0, {}, False),
+    ("C05", "quick"): [("MCEngI", 2, 0, {}, False), ("MCEngL1", 3, 0, {}, False), ("MCEngL2", 3, 0, {}, False), ("MCEngP", 2, 0, {}, False), ("MCEngM", 2, 0, {}, False)],
+    ("C05", "thorough"): [("MCEngI", 2, 0, {}, False), ("MCEngL1", 3, 0, {}, False), ("MCEngL2", 3, 0, {}, False), ("MCEngA", 3, 0, {}, False), ("MCEngP", 3, 0, {}, False), ("MCEngM", 2, 0, {}, False),
                           ("MCEngS", 4, 0, {}, False)],
     ("C09", "quick"): [("MCEngF2", 2, 0, {}, False), ("MCEngM", 2, 0, {}, False)],
     ("C09", "thorough"): [("MCEngF2", 2, 1, {}, False), ("MCEngF3", 3, 0, {}, False), ("MCEngF3L", 3, 0, {}, False),
@@ -218,6 +218,17 @@ def scenarios_for(prop, tier, rng):
                 sc = el.shaped(rng, n, sh, lazy=lz)
                 sc["id"] = sid() + "-" + sh
                 add(sc)
+    if prop in ("C01", "C02", "C03", "C04", "C05"):
+        # components whose Init() looks another (often lazy) component up by name: cycles closed during initialisation,
+        # early references first requested after population, components without injection points reached from inside
+        for _ in range(400 if not thorough else 6000):
+            n = rng.choice([2, 3, 3, 4])
+            sc = el.rand_scenario(rng, n, p_edge=rng.choice([0.2, 0.45]), lazies=0.5, ilooks=0.6,
+                                  wraps=(rng.choice([0.3, 0.6]) if prop in ("C01", "C03") else False),
+                                  fails=(0.2 if prop == "C04" else False), lookups=(2 if prop in ("C01", "C04") else 0),
+                                  opt=(prop == "C02"), sid=sid())
+            sc["id"] += "-ilook"
+            add(sc)
     return small, big
 
 
